@@ -2,5 +2,6 @@ SPECIFICATION Spec
 INVARIANT OrderIndependentWithNames
 INVARIANT BatchEqualsRowwise
 INVARIANT OneHot
+INVARIANT Stateless
 INVARIANT Emit
 CHECK_DEADLOCK FALSE
